@@ -161,7 +161,9 @@ class _Recorder:
         self.mod = mod
         self.check = check
         self.res = ShardResult(check=check.name)
-        self.known = getattr(mod, "KNOWN", {})
+        live = {f["id"] for f in load_ledger() if f["status"] == "known"}
+        # only findings the committed ledger lists as known may exclude anything
+        self.known = {k: v for k, v in getattr(mod, "KNOWN", {}).items() if k in live}
         self.last_fail = None
 
     def evaluate(self, case: dict) -> None:
